@@ -202,15 +202,3 @@ Proof.
   rewrite (Hg vs Hc). reflexivity.
 Qed.
 
-(* non-vacuity of the guarded final-value theorem: range(0, 6, 2) with a body that returns its index *)
-Example for_final_guard_satisfiable :
-  exists rho i start stop step e a o s ks (f : Z -> Q),
-    int_val rho start a /\ int_val rho stop o /\ int_val rho step s /\ py_range a o s = Some ks /\ ks <> [] /\
-    ((o - a) mod s = 0)%Z /\
-    body_rule rho i e ks f /\
-    ev_eq rho (ELet [(i, loop_final_index start stop step)] e) (f (last ks 0%Z)).
-Proof.
-  exists env_empty, 1%N, (EC 0), (EC 6), (EC 2), (EV 1%N), 0%Z, 6%Z, 2%Z, [0; 2; 4]%Z, inject_Z.
-  repeat split; try (eexists; split; reflexivity); try discriminate.
-  intros k q rho' _ Hq _ Hi. exists q. split; [exact Hi|exact Hq].
-Qed.
